@@ -33,6 +33,13 @@ def run(db, rep, tier):
     rep.rule("R6-trailer-agreement", "RadioTap: trailer_size() counts the 4-byte FCS exactly when the parser strips one (FLAGS present and FCS "
                                      "bit set), independently of anything else", 1)
     r6(db, rep)
+    rep.rule("R7-ext-minimum", "ICMP / ICMPv6 extension parsing starts the extension structure at least 128 octets into the payload - "
+                               "where the serialiser, which pads the quoted datagram to 128, puts it", 1)
+    r7(db, rep)
+    rep.rule("R1-size-balance", "(C02.R1, re-run here because a serialiser that writes more than its size function counts overwrites the next "
+                                "layer: the serialization no longer parses back to the same packet)", 90)
+    from rules import c02
+    c02.r1(db, rep)
     rep.explanation = ("Structural part of C03: the next-protocol tag is only rewritten when the payload class is recognised (R1), the two "
                        "directions of the tag tables agree for every layer class (R2), readers and writers walk the same member sequence "
                        "(R3), and no wire-derived selector value lacks a serialiser arm (R4). NOT decided: value-dependent losses (ICMP "
@@ -372,3 +379,68 @@ def r6(db, rep):
         rep.violation("R6-trailer-agreement", key, facts.loc(f), bad)
     else:
         rep.ok("R6-trailer-agreement", key, facts.loc(f), "non-zero exactly when FLAGS is present and FCS is set (%d rows over %s)" % (len(table), atoms))
+
+
+def r7(db, rep):
+    from vlib import cond, cfg
+    fs = [f for fid, f in db.functions.items() if fid.startswith("Tins::Internals::try_parse_icmp_extensions(") and f.get("body")]
+    if not fs:
+        rep.analysis_broken("Internals::try_parse_icmp_extensions vanished")
+        return
+    f = fs[0]
+    g = cfg.FnCFG(f)
+    stores = [x for x in facts.fn_nodes(f) if x["k"] == "BinaryOperator" and x.get("op") == "=" and
+              facts.strip_all(x["c"][0]).get("name") == "extensions_ptr"]
+    if not stores:
+        rep.analysis_broken("try_parse_icmp_extensions: no store to extensions_ptr found")
+        return
+    mn = None
+    for gl in db.globals.values():
+        if gl["id"].endswith("ICMPExtensionsStructure::MINIMUM_ICMP_PAYLOAD"):
+            mn = (gl.get("init") or {}).get("v")
+    if mn is None:
+        mn = 128
+    def cv(e):
+        """constant value, looking through const globals with a constant initialiser"""
+        v = facts.cval(e)
+        if v is not None:
+            return v
+        e0 = facts.strip_all(e)
+        if e0["k"] == "DeclRefExpr" and e0.get("glob"):
+            gl = db.globals.get(e0.get("var"))
+            if gl is not None and gl.get("const") and (gl.get("init") or {}).get("v") is not None:
+                return gl["init"]["v"]
+        return None
+    for i, x in enumerate(stores):
+        key = "try_parse_icmp_extensions:extensions_ptr#%d" % (i + 1)
+        rhs = facts.strip_all(facts.inline_locals(f, x["c"][1]))
+        off = None
+        if rhs["k"] == "BinaryOperator" and rhs.get("op") == "+":
+            for a, b in ((rhs["c"][0], rhs["c"][1]), (rhs["c"][1], rhs["c"][0])):
+                if "pointer()" in facts.expr_str(a):
+                    off = b
+        if off is None:
+            rep.analysis_broken("%s: offset expression `%s` not recognised" % (key, facts.expr_str(rhs)))
+            continue
+        ov = cv(off)
+        ok = ov is not None and ov >= mn
+        why = "constant offset %s" % ov
+        if not ok:
+            ot = facts.expr_str(off)
+            for op, l, r in cond.guards_facts(g, g.pos(x)):
+                if r is None:
+                    continue
+                l2, r2 = facts.inline_locals(f, l), facts.inline_locals(f, r)
+                if op == ">=" and facts.expr_str(l) == ot and (cv(r2) or 0) >= mn:
+                    ok, why = True, "guarded by %s >= %s" % (ot, cv(r2))
+                if op == "<=" and facts.expr_str(r) == ot and (cv(l2) or 0) >= mn:
+                    ok, why = True, "guarded by %s >= %s" % (ot, cv(l2))
+                if op == ">" and facts.expr_str(l) == ot and (cv(r2) or 0) >= mn - 1:
+                    ok, why = True, "guarded by %s > %s" % (ot, cv(r2))
+        if ok:
+            rep.ok("R7-ext-minimum", key, facts.loc(f, x), "extension structure expected at offset >= %d (%s)" % (mn, why))
+        else:
+            rep.violation("R7-ext-minimum", key, facts.loc(f, x),
+                          "the extension structure is looked for at offset `%s`, which can be below %d: the serialiser always pads the quoted "
+                          "datagram to %d octets before the extensions, so a packet parsed this way is written back differently"
+                          % (facts.expr_str(off), mn, mn))
